@@ -116,6 +116,33 @@ func genCase(t *rapid.T) Case {
 		}
 		m.Raw = append(m.Raw, cmd(2, ""))
 	}
+	if g.Chance(1, 3, "thinmodule") {
+		// a module whose top level holds nothing but choices (and perhaps a state container): under a configuration
+		// filter the members of a choice may all go while the choice itself, which is config true, stays
+		str := func() *sg.TypeSpec { return &sg.TypeSpec{Name: "string"} }
+		mz := &sg.Mod{Name: "mz", Prefix: "mz"}
+		nch := 1 + g.Pick(2, "thinchoices")
+		for i := 0; i < nch; i++ {
+			ch := &sg.Node{Kind: "choice", Name: fmt.Sprintf("mz-ch%d", i)}
+			for j, nc := 0, 1+g.Pick(2, "thincases"); j < nc; j++ {
+				var member *sg.Node
+				if g.Bool("thinmember") {
+					member = &sg.Node{Kind: "leaf", Name: fmt.Sprintf("mz-l%d%d", i, j), Type: str()}
+				} else {
+					member = &sg.Node{Kind: "container", Name: fmt.Sprintf("mz-c%d%d", i, j), Kids: []*sg.Node{{Kind: "leaf", Name: "x", Type: str()}}}
+				}
+				if g.Chance(3, 4, "thinstate") {
+					member.Config = "false"
+				}
+				ch.Kids = append(ch.Kids, &sg.Node{Kind: "case", Name: fmt.Sprintf("mz-cs%d%d", i, j), Kids: []*sg.Node{member}})
+			}
+			mz.Nodes = append(mz.Nodes, ch)
+		}
+		if g.Chance(1, 3, "thinstatetop") {
+			mz.Nodes = append(mz.Nodes, &sg.Node{Kind: "container", Name: "mz-state", Config: "false", Kids: []*sg.Node{{Kind: "leaf", Name: "x", Type: str()}}})
+		}
+		c.Mods = append(c.Mods, mz)
+	}
 	return c
 }
 
